@@ -317,6 +317,33 @@ def r17_2(ctx):
             sfld = [s[1] for s in s_tr.steps if s[0] == "field"]
             ok_src = bool(sfld) and any(r[1] == sfld[0] and cb.dominates(r[0], bb) and cb.dominates(r[0], rbb) for r in resizes)
             det_src = f"source = self.{sfld[:1]} resized to buffer_size before the read"
+            if not ok_src and sfld and any(r[1] == sfld[0] for r in resizes):
+                # `if v.len() != buffer_size { v.resize(buffer_size, 0) }`: the resize is skipped only over the edge on
+                # which the vector already has exactly that length
+                eq_edges = []
+                for sb_ in sorted(cb.reach()):
+                    sw_ = cb.blocks[sb_]["term"]
+                    if sw_["k"] != "switch" or not is_place(sw_["discr"]) or sw_["discr"]["p"]["pr"]:
+                        continue
+                    for st_ in cb.blocks[sb_]["stmts"]:
+                        if not (st_["k"] == "assign" and not st_["p"]["pr"] and st_["p"]["l"] == sw_["discr"]["p"]["l"] and st_["rv"]["k"] == "binop" and st_["rv"]["op"] in ("Eq", "Ne")):
+                            continue
+                        for x_, y_ in ((st_["rv"]["a"], st_["rv"]["b"]), (st_["rv"]["b"], st_["rv"]["a"])):
+                            if not is_bufsize(y_):
+                                continue
+                            lt_ = trace(cb, x_)
+                            if lt_.origin and lt_.origin[0] == "call" and (fn_of(lt_.origin[2]) or {}).get("name") == "len" and "Vec" in (fn_of(lt_.origin[2]) or {}).get("def", "") and lt_.origin[2]["args"]:
+                                vf_ = [q[1] for q in trace(cb, lt_.origin[2]["args"][0]).steps if q[0] == "field"]
+                                if vf_[:1] == sfld[:1]:
+                                    zero_ = [tg for v_, tg in sw_["targets"] if v_ == 0]
+                                    if st_["rv"]["op"] == "Ne" and zero_:
+                                        eq_edges.append((sb_, zero_[0]))
+                                    elif st_["rv"]["op"] == "Eq" and zero_:
+                                        eq_edges.append((sb_, sw_["otherwise"]))
+                rblocks = [r[0] for r in resizes if r[1] == sfld[0]]
+                if eq_edges and rbb not in cb.reachable_from(0, removed_nodes=rblocks, removed_edges=eq_edges):
+                    ok_src = True
+                    det_src = f"source = self.{sfld[:1]}, resized to buffer_size before the read unless it already has exactly that length"
             if not ok_src:
                 # or the very slice of exactly buffer_size bytes that was lent to the reader
                 pt = trace(cb, src)
@@ -515,3 +542,18 @@ def r17_5(ctx):
                     r = b.reachable_from(t["target"]) if t["target"] is not None else set()
                     parses = [x for x in r if (fn_of(b.blocks[x]["term"]) or {}).get("name", "").endswith("parse_next") or (fn_of(b.blocks[x]["term"]) or {}).get("name", "").endswith("_parse")]
                     ctx.ob(f"accessor-result-not-held-across-parse:{b.id.rsplit('::', 2)[-2] if b.raw.get('parent') else b.name}", not parses, site(b, bb), "no parse call follows while the accessor's &mut could be live in this body" if not parses else "a parse call is reachable after obtaining &mut ReadState in the same body", trivial=True)
+
+
+@rule("R10.6", 1, "the reader behind the YAML parser is offered exactly as many bytes as libyaml asked for: the bounce vector has that length when it is lent to `read` (so a well-behaved reader that fills what it is given is never reported as misbehaving, and reader input is recognised like the same bytes in memory)", ["C10", "C02", "C09"])
+def r10_6(ctx):
+    # the obligation is R17.2's `copy:source-is-resized-bounce-buffer`, re-stated for the properties that depend on it
+    # for a reason other than memory safety
+    from engine import Ctx
+
+    sub = Ctx(ctx.facts, ctx.config, "R17.2")
+    r17_2(sub)
+    pick = [o for o in sub.obs if o.key == "copy:source-is-resized-bounce-buffer"]
+    ctx.need(pick, "R17.2's bounce-buffer obligation not produced")
+    o = pick[0]
+    ctx.ob("reader-offered-exactly-the-requested-size", o.ok, o.site,
+           o.detail if o.ok else "the vector lent to the reader is not known to have exactly the length libyaml asked for: offered more, a reader that fills its buffer trips the read_len <= buffer_size guard and a valid YAML stream is rejected (\"misbehaving reader\"); detection then answers differently for a reader than for the same bytes in memory")
